@@ -1,0 +1,16 @@
+//go:build verif
+
+package def
+
+// VerifRegexSources exposes the source of every regular expression compiled in this
+// package (verification hook, build tag verif).
+func VerifRegexSources() map[string]string {
+	return map[string]string{
+		"nodeDefinitionRegex":     nodeDefinitionRegex.String(),
+		"materialDefinitionRegex": materialDefinitionRegex.String(),
+		"sectionDefinitionRegex":  sectionDefinitionRegex.String(),
+		"distLoadDefinitionRegex": distLoadDefinitionRegex.String(),
+		"concLoadDefinitionRegex": concLoadDefinitionRegex.String(),
+		"elementDefinitionRegex":  elementDefinitionRegex.String(),
+	}
+}
